@@ -56,8 +56,10 @@ def run(ctx):
         raise AnalysisBroken('anchor %s not found in the CLI' % PATH_GETTER)
     writers = []
     nsites = 0
+    from rules import common
+    live_params, live_seed = common.pointer_flow(prog, is_final_seed)   # the path handed on to helpers, or returned by them
     for f in prog.functions:
-        pt = PtrTaint(f, is_final_seed)
+        pt = PtrTaint(f, live_seed, live_params.get(f.key, ()))
         for c in f.calls():
             name = c.get('callee')
             if name in ('fopen', 'freopen'):
@@ -92,8 +94,11 @@ def run(ctx):
                     src, dst = arg(c, 1), arg(c, 3)
                 if src is not None and pt.is_derived(src):
                     nsites += 1
-                    chk.ob('AT1', 'rename-away[%s]' % f.name, False, c.where(), f.name,
-                           '%s moves the live preload file away' % render(c))
+                    # link(live, other) only gives the file a second name; rename(live, other) takes the live name away
+                    chk.ob('AT1', 'rename-away[%s:%s]' % (f.name, name), name == 'link', c.where(), f.name,
+                           '%s moves the live preload file away: until something is put in its place the path does not '
+                           'exist and nothing is preloaded' % render(c),
+                           how='link() adds a name, the live name stays')
                 elif dst is not None and pt.is_derived(dst):
                     nsites += 1
                     writers.append((f, c, pt))
